@@ -5,7 +5,9 @@
    Events (uniform records [e, t, k, p, n]; unused fields are 0 / ""):
      walk   k = "file" | "link" | "dir" | "other", p = index of the entry in walk (pre-) order
      get    the serve loop took (channel t, request k) from _receivequeue;
-            k = "send" | "list_done" | "ack" | "links" | "done" | "eof";  p = entry index for send / ack
+            k = "send" | "list_done" | "ack" | "links" | "done" | "eof";  p = entry index for send / ack;
+            for send n = 1 iff the target sent a checksum along
+     item   ... n = 1 iff the file's data went out, 0 iff None went out ("not really modified")
      item   _send_item(t, p): the file's data (or None) went to target t
      links  _process_link(t): n link records + the completion marker went to target t
      cb     the finishedcallback of target t ran
@@ -24,7 +26,7 @@ Ev(e, t, k, p, n) == [e |-> e, t |-> t, k |-> k, p |-> p, n |-> n]
 AInit(NT, mayfail) ==
   [files |-> {}, nlinks |-> 0, serving |-> FALSE, mayfail |-> mayfail,
    ph |-> [t \in 1..NT |-> "req"], reqs |-> [t \in 1..NT |-> <<>>], nacks |-> [t \in 1..NT |-> 0],
-   cbs |-> [t \in 1..NT |-> 0], pend |-> <<>>, early |-> {}, ended |-> "", bad |-> ""]
+   cbs |-> [t \in 1..NT |-> 0], pend |-> <<>>, needData |-> FALSE, early |-> {}, ended |-> "", bad |-> ""]
 
 Fail(st, why) == IF st.bad = "" THEN [st EXCEPT !.bad = why] ELSE st
 Last(s) == s[Len(s)]
@@ -35,7 +37,7 @@ StepGet(st, ev) ==
          IF ph # "req" THEN Fail(st, "C17.proto.file-requested-after-list-done")
          ELSE IF ev.p \notin st.files THEN Fail(st, "C17.proto.request-for-a-path-that-was-not-announced-as-file")
          ELSE IF st.reqs[t] # <<>> /\ Last(st.reqs[t]) >= ev.p THEN Fail(st, "C17.proto.requests-not-in-walk-order")
-         ELSE [st EXCEPT !.reqs[t] = Append(@, ev.p), !.pend = <<"item", t, ev.p>>]
+         ELSE [st EXCEPT !.reqs[t] = Append(@, ev.p), !.pend = <<"item", t, ev.p>>, !.needData = (ev.n = 0)]
     [] ev.k = "list_done" ->
          IF ph # "req" THEN Fail(st, "C17.proto.list-done-twice") ELSE [st EXCEPT !.ph[t] = "ack"]
     [] ev.k = "ack" ->
@@ -71,7 +73,10 @@ Step(st, ev) ==
          ELSE IF ev.k = "link" THEN [st EXCEPT !.nlinks = @ + 1]
          ELSE st
     [] ev.e = "get" -> StepGet([st EXCEPT !.serving = TRUE], ev)
-    [] ev.e = "item" -> IF st.pend = <<>> THEN Fail(st, "C17.proto.item-sent-without-request") ELSE [st EXCEPT !.pend = <<>>]
+    [] ev.e = "item" -> IF st.pend = <<>> THEN Fail(st, "C17.proto.item-sent-without-request")
+                        \* a target that sent no checksum has nothing usable: "not really modified" (None) is no answer for it
+                        ELSE IF st.needData /\ ev.n = 0 THEN Fail(st, "C17.proto.request-without-checksum-answered-without-data")
+                        ELSE [st EXCEPT !.pend = <<>>]
     [] ev.e = "links" -> IF st.pend = <<>> THEN Fail(st, "C17.proto.links-sent-without-request") ELSE [st EXCEPT !.pend = <<>>]
     [] ev.e = "cb" ->
          IF st.pend = <<>> \/ st.cbs[ev.t] > 0 THEN Fail(st, "C17.proto.finished-callback-called-twice-or-early")
